@@ -12,11 +12,13 @@ theorem facts_C01 : holdsAll expectedC01 = true := by decide
 variables of the packages this property's code lives in, the functions (other than `init`) that
 assign to them or call methods on them, and the fields of the property's struct types. The model is
 a pure function of the arguments and of these fields; a new variable, writer or field is state the
-model does not know of. The digest-valued entries cover, per package: every declared function and
-method with its receiver kind (`funcs:`), every function-reads-package-variable pair (`reads:`) and
-every write through a parameter or receiver, including in-place `sort.*`/`copy` (`pwrites:`); the
-lists behind the digests are in `funcs_expected.txt` and in comments of the generated file. -/
-def stateC01 : List (String × String) := [("globals:stats", "ErrMismatchedSamples ErrSampleSize ErrSamplesEqual ErrZeroVariance MannWhitneyExactLimit MannWhitneyTiesExactLimit StdNormal _KDEBoundaryMethod_index _KDEKernel_index _LocationHypothesis_index inf nan quantileCIApproxThreshold"), ("globals:mathx", "nan smallFact"), ("globalwrites:stats", "MannWhitneyUTest:StdNormal.CDF"), ("globalwrites:mathx", ""), ("fields:stats.MannWhitneyUTestResult", "N1:int N2:int U:float64 AltHypothesis:LocationHypothesis P:float64"), ("fields:stats.UDist", "N1:int N2:int T:[]int"), ("fields:stats.ukey", "n1:int twoU:int"), ("funcs:stats", "n=117 fnv64a=f105f997db64badb"), ("reads:stats", "n=25 fnv64a=8314b76793c8b23b"), ("pwrites:stats", "n=12 fnv64a=4e7a6b5338e6d373"), ("funcs:mathx", "n=13 fnv64a=721c592b642cc9ba"), ("reads:mathx", "n=2 fnv64a=0b5c58057d585a6b"), ("pwrites:mathx", "n=0 fnv64a=cbf29ce484222325")]
+model does not know of. The digest-valued `shape:` entry covers everything the call graph
+(resolved by go/types) reaches from the functions declared in the property's anchor files: per
+function, method (with receiver kind), package variable and constant, its numeric literals, the
+package variables it reads and its writes through parameters or the receiver (including in-place
+`sort.*`/`copy`/`append`). The entries behind the digest are in `shape_expected.txt` and in a
+comment of the generated file. -/
+def stateC01 : List (String × String) := [("globals:stats", "ErrMismatchedSamples ErrSampleSize ErrSamplesEqual ErrZeroVariance MannWhitneyExactLimit MannWhitneyTiesExactLimit StdNormal _KDEBoundaryMethod_index _KDEKernel_index _LocationHypothesis_index inf nan quantileCIApproxThreshold"), ("globals:mathx", "nan smallFact"), ("globalwrites:stats", "MannWhitneyUTest:StdNormal.CDF"), ("globalwrites:mathx", ""), ("fields:stats.MannWhitneyUTestResult", "N1:int N2:int U:float64 AltHypothesis:LocationHypothesis P:float64"), ("fields:stats.UDist", "N1:int N2:int T:[]int"), ("fields:stats.ukey", "n1:int twoU:int"), ("shape:C01", "n=32 fnv64a=5f8b55aacaefccd3")]
 
 /-- the source has exactly the package-level variables, writers and struct fields the model accounts for -/
 theorem state_C01 : holdsAll stateC01 = true := by decide +kernel
